@@ -254,6 +254,39 @@ BINARY_OPERATION_TO_DESCRIPTION_AND_METHOD = {
     ast.NotIn: ("contains", "__contains__", None, None),
 }
 
+# Like CPython's constant folder, we do not evaluate a binary operation on literals
+# if the result would be larger than this: its computation may never finish.
+# The size is in bits for an int and in elements for a sequence.
+MAX_LITERAL_RESULT_SIZE = 100_000
+_SEQUENCE_LITERAL_TYPES = (str, bytes, tuple, list)
+
+
+def _literal_result_size(op: ast.AST, left: object, right: object) -> int:
+    """Upper bound for the size of the result of a binary operation on two literals.
+
+    Returns 0 for operations where the result cannot be much larger than the operands.
+
+    """
+    if isinstance(left, int) and isinstance(right, int):
+        if isinstance(op, ast.Pow):
+            return left.bit_length() * right
+        elif isinstance(op, ast.LShift):
+            return left.bit_length() + right
+        elif isinstance(op, ast.Mult):
+            return left.bit_length() + right.bit_length()
+    elif isinstance(op, ast.Mult):
+        if isinstance(left, _SEQUENCE_LITERAL_TYPES) and isinstance(right, int):
+            return len(left) * right
+        elif isinstance(left, int) and isinstance(right, _SEQUENCE_LITERAL_TYPES):
+            return left * len(right)
+    elif isinstance(op, ast.Add):
+        if isinstance(left, _SEQUENCE_LITERAL_TYPES) and isinstance(
+            right, _SEQUENCE_LITERAL_TYPES
+        ):
+            return len(left) + len(right)
+    return 0
+
+
 # Certain special methods are expected to return NotImplemented if they
 # can't handle a particular argument, so that the interpreter can
 # try some other call. To support thiis, such methods are allowed to
@@ -3794,6 +3827,14 @@ class NameCheckVisitor(node_visitor.ReplacingNodeVisitor):
         allow_call = allow_call and method not in self.options.get_value_for(
             DisallowCallsToDunders
         )
+        right_literal = unannotate(right)
+        if allow_call and isinstance(right_literal, KnownValue):
+            allow_call = not any(
+                isinstance(subval, KnownValue)
+                and _literal_result_size(op, subval.val, right_literal.val)
+                > MAX_LITERAL_RESULT_SIZE
+                for subval in flatten_values(left, unwrap_annotated=True)
+            )
 
         if is_inplace:
             assert imethod is not None, f"no inplace method available for {op}"
